@@ -12,7 +12,11 @@ void run_case(const Case& c, Result& r)
     int N = (int)X.cols(), D = (int)X.rows();
     MatrixCallbacks cb(X);
     configure_callbacks(cb, c);
+    // the samples are labelled 1000, 1001, ...: a callback invoked with a position instead of a label is out of the map
     std::vector<int> idx = iota_indices(N);
+    for (int& v : idx)
+        v += 1000;
+    cb.label_base = 1000;
     std::srand((unsigned)c.i("srand", 1));
     tapkee::verif::shuffle_seed((unsigned)c.i("shuffle", 1));
     CaptureLogger& lg = capture_logger();
@@ -21,6 +25,9 @@ void run_case(const Case& c, Result& r)
     int td = (int)c.i("td", 2);
     Outcome o = guarded_embed(idx, cb, params_from_case(c));
     r.str["outcome"] = o.what;
+    if (cb.bad_labels.load() > 0)
+        r.violation("callback-invoked-with-a-non-sample", sf("%ld callback invocations with a value that is not one of the supplied samples (a position?)",
+                                                             (long)cb.bad_labels.load()));
     r.nontrivial = cb.pairwise_calls() + cb.nf.load() > 0;
     std::string cell = method + ":" + c.s("nm", "-") + ":" + c.s("em", "-");
     r.tags.push_back("cell:" + cell);
